@@ -24,7 +24,7 @@ int vprop_cpu_limit_s = 20;
 const char *vprop_class_names[V_NCLASS] = {
   "valid", "mutated", "over_limit", "target_avx", "target_sse", "target_mmx", "target_altivec", "target_neon", "target_mips",
   "target_c64x", "target_c", "odd_flags", "result_ok", "result_nonfatal_failure", "result_fatal", "ran_native", "ran_fallback",
-  "long_program_ge_50", "valid_program_got_fatal_result", NULL
+  "long_program_ge_50", "valid_program_got_fatal_result", "systematic_single_instruction", NULL
 };
 
 static const char *tnames[8] = { "avx", "sse", "mmx", "altivec", "neon", "mips", "c64x-c", "c" };
@@ -32,7 +32,8 @@ static OrcOpcodeSet *sys_set;
 
 static void quiet_print (int level, const char *file, const char *func, int line, const char *fmt, va_list args)
 {
-  (void) level; (void) file; (void) func; (void) line; (void) fmt; (void) args;
+  /* errors (assertion messages) stay visible, the rest is dropped */
+  if (level == ORC_DEBUG_ERROR) { fprintf (stderr, "ORC ERROR %s:%d %s: ", file, line, func); vfprintf (stderr, fmt, args); fputc ('\n', stderr); }
 }
 
 void vprop_init (int argc, char **argv)
@@ -42,8 +43,10 @@ void vprop_init (int argc, char **argv)
   orc_debug_set_print_function (quiet_print);
   sys_set = orc_opcode_set_get ("sys");
 }
-uint64_t vprop_enum_count (const char *tier) { (void) tier; return 0; }
-size_t vprop_enum_stream (uint64_t i, uint32_t *out, size_t max) { (void) i; (void) out; (void) max; return 0; }
+/* enumerated stage: one case per (opcode, prefix); the case walks every operand position x every way of spoiling it x array/temporary
+ * operands x every target inside the child */
+uint64_t vprop_enum_count (const char *tier) { (void) tier; return (uint64_t) v_noptab * 3; }
+size_t vprop_enum_stream (uint64_t i, uint32_t *out, size_t max) { (void) max; out[0] = 0xE5E5E5E5u; out[1] = (uint32_t) (i / 3); out[2] = (uint32_t) (i % 3); return 3; }
 
 static int declared[ORC_N_VARIABLES], n_declared;
 static void collect_declared (OrcProgram *p)
@@ -66,6 +69,148 @@ static const char *var_name (OrcProgram *p, VChoices *c)
   return odd[vc_pick (c, 9)];
 }
 
+/* a nearly valid instruction: fresh variables of exactly the class and size every operand position asks for (size = prefix
+ * multiplier x operand size, so x4 on 4- and 8-byte opcodes asks for 16- and 32-byte variables), then at most one position is
+ * spoiled: odd size, wrong class, or an undeclared variable */
+static void near_valid (OrcProgram *p, VChoices *c, VResult *r, int k)
+{
+  static const int odd_sizes[] = { 3, 16, 5, 1, 2, 4, 8, 32, 6, 12 };
+  const VOp *op = &v_optab[vc_pick (c, (uint32_t) v_noptab)];
+  static const unsigned pf[3] = { 0, ORC_INSTRUCTION_FLAG_X2, ORC_INSTRUCTION_FLAG_X4 };
+  uint32_t pi = vc_pick (c, 3);
+  int mult = pi == 0 ? 1 : pi == 1 ? 2 : 4, npos = 0, pos, args[5] = { 0, 0, 0, 0, 0 }, j, spoil;
+  uint32_t how = vc_pick (c, 4);
+  char nm[24];
+  for (j = 0; j < 2; j++) if (op->dsz[j]) npos++;
+  for (j = 0; j < 3; j++) if (op->ssz[j]) npos++;
+  spoil = vc_pick (c, 3) == 0 ? -1 : (int) vc_pick (c, (uint32_t) npos);
+  if (op->flags & VOP_INVARIANT) return;
+  v_desc (r, "mutation: near-valid %s%s", mult == 2 ? "x2 " : mult == 4 ? "x4 " : "", op->name);
+  pos = 0;
+  for (j = 0; j < 2; j++) {
+    int size;
+    if (!op->dsz[j]) continue;
+    size = (op->flags & VOP_ACC) ? op->dsz[j] : op->dsz[j] * mult;
+    snprintf (nm, sizeof nm, "nd%d_%d", k, j);
+    if (pos == spoil && how == 0) size = odd_sizes[vc_pick (c, 10)];
+    if (pos == spoil && how == 1) args[pos] = orc_program_add_source (p, size, nm);
+    else if (pos == spoil && how == 2) args[pos] = orc_program_add_constant (p, size, 5, nm);
+    else if (pos == spoil && how == 3) args[pos] = (int) vc_pick (c, ORC_N_VARIABLES);
+    else if (op->flags & VOP_ACC) args[pos] = orc_program_add_accumulator (p, size, nm);
+    else if (vc_chance (c, 1, 2)) args[pos] = orc_program_add_destination (p, size, nm);
+    else args[pos] = orc_program_add_temporary (p, size, nm);
+    v_desc (r, " d%d=%d(size %d)", j, args[pos], size);
+    pos++;
+  }
+  for (j = 0; j < 3; j++) {
+    int size, scalar = (op->flags & VOP_SCALAR) && j >= 1;
+    if (!op->ssz[j]) continue;
+    size = (scalar || ((op->flags & VOP_LOAD) && j == 0)) ? op->ssz[j] : op->ssz[j] * mult;
+    snprintf (nm, sizeof nm, "ns%d_%d", k, j);
+    if (pos == spoil && how == 0) size = odd_sizes[vc_pick (c, 10)];
+    if (pos == spoil && how == 1) args[pos] = orc_program_add_accumulator (p, size, nm);
+    else if (pos == spoil && how == 3) args[pos] = (int) vc_pick (c, ORC_N_VARIABLES);
+    else if (scalar || vc_chance (c, 1, 4)) args[pos] = vc_chance (c, 1, 2) ? orc_program_add_constant (p, size, (int) vc_pick (c, 40), nm) : orc_program_add_parameter (p, size, nm);
+    else args[pos] = orc_program_add_source (p, size, nm);
+    v_desc (r, " s%d=%d(size %d)", j, args[pos], size);
+    pos++;
+  }
+  v_desc (r, " spoiled position %d how %u\n", spoil, how);
+  /* operands are passed destinations first, then sources, as orc_program_append_2 expects */
+  orc_program_append_2 (p, op->name, pf[pi], args[0], args[1], args[2], args[3]);
+}
+
+static const int sys_sizes[] = { 3, 16, 5, 32, 1, 2, 4, 8, 6 };
+#define N_SPOIL (9 + 4)        /* 9 sizes, wrong class, constant/accumulator in the wrong role, undeclared variable, nothing spoiled */
+static void classify (OrcProgram *p, OrcCompileResult res, int t, VResult *r, const char *what)
+{
+  char sig[V_SIG_MAX];
+  if (res != ORC_COMPILE_RESULT_OK && res != ORC_COMPILE_RESULT_UNKNOWN_COMPILE && res != ORC_COMPILE_RESULT_MISSING_RULE
+      && res != ORC_COMPILE_RESULT_UNKNOWN_PARSE && res != ORC_COMPILE_RESULT_PARSE && res != ORC_COMPILE_RESULT_VARIABLE) {
+    snprintf (sig, sizeof sig, "classification:undocumented-result target=%s", tnames[t]);
+    v_fail (r, sig, "%s: orc_program_compile_full returned 0x%x, which is none of the documented result codes", what, res);
+  } else if (ORC_COMPILE_RESULT_IS_FATAL (res)) {
+    if (p->orccode != NULL && p->orccode->exec != NULL && (void *) p->orccode->exec != (void *) orc_executor_emulate) {
+      snprintf (sig, sizeof sig, "classification:fatal-with-code target=%s", tnames[t]);
+      v_fail (r, sig, "%s: fatal result %s but the program carries executable code", what, v_result_name (res));
+    }
+  } else if (ORC_COMPILE_RESULT_IS_SUCCESSFUL (res)) {
+    if (!p->orccode || !orc_program_get_asm_code (p) || (t < 3 && (!p->orccode->exec || !p->code_exec || p->orccode->code_size <= 0))) {
+      snprintf (sig, sizeof sig, "classification:success-without-code target=%s", tnames[t]);
+      v_fail (r, sig, "%s: successful result but code object/exec pointer/listing missing", what);
+    }
+  } else if (!p->orccode) {
+    snprintf (sig, sizeof sig, "classification:nonfatal-without-emulation target=%s", tnames[t]);
+    v_fail (r, sig, "%s: non-fatal failure %s but no code object to emulate from", what, v_result_name (res));
+  } else if ((void *) p->code_exec != (void *) orc_executor_emulate && p->code_exec != p->backup_func) {
+    snprintf (sig, sizeof sig, "classification:nonfatal-not-falling-back target=%s", tnames[t]);
+    v_fail (r, sig, "%s: non-fatal failure %s but code_exec does not point to the emulator", what, v_result_name (res));
+  }
+}
+
+static void systematic (VResult *r, int o, int pi)
+{
+  const VOp *op = &v_optab[o % v_noptab];
+  static const unsigned pf[3] = { 0, ORC_INSTRUCTION_FLAG_X2, ORC_INSTRUCTION_FLAG_X4 };
+  int mult = pi == 0 ? 1 : pi == 1 ? 2 : 4, npos = 0, j, spoil, sk, variant, t;
+  char what[200];
+  for (j = 0; j < 2; j++) if (op->dsz[j]) npos++;
+  for (j = 0; j < 3; j++) if (op->ssz[j]) npos++;
+  v_desc (r, "# C05 systematic: %s%s, every operand position x %d ways of spoiling it x array/temporary operands x 8 targets\n",
+      mult == 2 ? "x2 " : mult == 4 ? "x4 " : "", op->name, N_SPOIL);
+  r->classes |= 1u << 19;
+  if (op->flags & VOP_INVARIANT) { r->verdict = V_DISCARD; return; }
+  for (spoil = 0; spoil < npos; spoil++)
+    for (sk = 0; sk < N_SPOIL; sk++)
+      for (variant = 0; variant < 2; variant++)
+        for (t = 0; t < 8; t++) {
+          OrcProgram *p = orc_program_new ();
+          OrcCompileResult res;
+          int pos = 0, args[5] = { 0, 0, 0, 0, 0 };
+          char nm[16];
+          if (sk == N_SPOIL - 1 && spoil > 0) { orc_program_free (p); continue; }      /* "nothing spoiled" once */
+          for (j = 0; j < 2; j++) {
+            int size;
+            if (!op->dsz[j]) continue;
+            size = (op->flags & VOP_ACC) ? op->dsz[j] : op->dsz[j] * mult;
+            snprintf (nm, sizeof nm, "d%d", j);
+            if (pos == spoil && sk < 9) size = sys_sizes[sk];
+            if (pos == spoil && sk == 9) args[pos] = orc_program_add_source (p, size, nm);
+            else if (pos == spoil && sk == 10) args[pos] = orc_program_add_constant (p, size, 5, nm);
+            else if (pos == spoil && sk == 11) args[pos] = ORC_VAR_T1 + 7;
+            else if (op->flags & VOP_ACC) args[pos] = orc_program_add_accumulator (p, size, nm);
+            else if (variant == 0) args[pos] = orc_program_add_destination (p, size, nm);
+            else args[pos] = orc_program_add_temporary (p, size, nm);
+            pos++;
+          }
+          for (j = 0; j < 3; j++) {
+            int size, scalar = (op->flags & VOP_SCALAR) && j >= 1;
+            if (!op->ssz[j]) continue;
+            size = (scalar || ((op->flags & VOP_LOAD) && j == 0)) ? op->ssz[j] : op->ssz[j] * mult;
+            snprintf (nm, sizeof nm, "s%d", j);
+            if (pos == spoil && sk < 9) size = sys_sizes[sk];
+            if (pos == spoil && sk == 9) args[pos] = orc_program_add_destination (p, size, nm);
+            else if (pos == spoil && sk == 10) args[pos] = orc_program_add_accumulator (p, size, nm);
+            else if (pos == spoil && sk == 11) args[pos] = ORC_VAR_T1 + 9;
+            else if (scalar) args[pos] = variant == 0 ? orc_program_add_constant (p, size, 3, nm) : orc_program_add_parameter (p, size, nm);
+            else if (variant == 0 || ((op->flags & VOP_LOAD) && j == 0)) args[pos] = orc_program_add_source (p, size, nm);
+            else { args[pos] = orc_program_add_temporary (p, size, nm); }
+            pos++;
+          }
+          orc_program_append_2 (p, op->name, pf[pi], args[0], args[1], args[2], args[3]);
+          snprintf (what, sizeof what, "%s%s position %d spoil %d variant %d target %s", mult == 2 ? "x2 " : mult == 4 ? "x4 " : "", op->name, spoil, sk, variant, tnames[t]);
+          v_stage (r, "compile %s", what);
+          res = orc_program_compile_full (p, orc_target_get_by_name (tnames[t]), orc_target_get_default_flags (orc_target_get_by_name (tnames[t])));
+          classify (p, res, t, r, what);
+          orc_program_free (p);
+          r->sub_evals++;
+          if (r->verdict == V_FAIL) return;
+        }
+  r->nontrivial = 1;
+  r->sub_nontrivial = r->sub_evals;
+  r->hash = 0xE5000000u + (uint64_t) o * 4 + (uint64_t) pi;
+}
+
 static void mutate (OrcProgram *p, VChoices *c, VResult *r)
 {
   static const int odd_sizes[] = { 0, 3, 5, 16, 1, 2, 4, 8, 7, 32 };
@@ -73,7 +218,7 @@ static void mutate (OrcProgram *p, VChoices *c, VResult *r)
   int nmut = 1 + (int) vc_pick (c, 12), k;
   char nm[24];
   for (k = 0; k < nmut; k++) {
-    uint32_t m = vc_pick (c, 12);
+    uint32_t m = vc_pick (c, 20);
     const char *opname = sys_set->opcodes[vc_pick (c, (uint32_t) sys_set->n_opcodes)].name;
     collect_declared (p);
     snprintf (nm, sizeof nm, "x%d", k);
@@ -130,6 +275,7 @@ static void mutate (OrcProgram *p, VChoices *c, VResult *r)
         else orc_program_set_constant_m (p, v);
         break;
       }
+      case 12: case 13: case 14: case 15: case 16: case 17: case 18: case 19: near_valid (p, c, r, k); break;
       default: {
         int var = any_var (c), al = (int) vc_pick (c, 70);
         v_desc (r, "mutation: alignment of var %d = %d\n", var, al);
@@ -193,6 +339,7 @@ void vprop_case (VChoices *c, VResult *r)
   char sig[V_SIG_MAX];
   uint64_t h;
 
+  if (c->n >= 3 && c->v[0] == 0xE5E5E5E5u) { systematic (r, (int) c->v[1], (int) (c->v[2] % 3)); return; }
   gen_opts_default (&go);
   go.allow_float = 1;
   go.max_insns = 20;
@@ -201,6 +348,7 @@ void vprop_case (VChoices *c, VResult *r)
     go.single_opcode = (int) vc_pick (c, (uint32_t) v_noptab);
     go.single_form = (int) vc_pick (c, (uint32_t) ps_single_forms (&v_optab[go.single_opcode]));
   }
+  if (mode == 2) { go.max_insns = 3; go.min_insns = 0; }
   ps_generate (c, &go, &ps, r);
   v_desc (r, "# C05 %s program\n", mode <= 1 ? "valid" : mode == 2 ? "mutated" : "over-limit");
   ps_print (&ps, r);
